@@ -11,7 +11,7 @@
 (* Each case names the judgements (`kinds`) to evaluate; the verdict of    *)
 (* each is computed here, by TLC, and printed; the driver only counts.     *)
 (***************************************************************************)
-EXTENDS BoolNet, Hctl, Json, IOUtils
+EXTENDS BoolNet, Hctl, Syntax, Json, IOUtils
 
 Doc == JsonDeserialize(IOEnv.CASEFILE)
 N0  == Doc.net
@@ -101,6 +101,24 @@ JApi(case) ==
       /\ call.outcome \in {"ok", "err"}
       /\ (call.outcome = "err") <=> ShouldErr(call)
 
+(* apistr: the same for ARBITRARY strings: the specification lexes and parses the recorded       *)
+(* characters itself (Syntax.tla); text that is not a formula of the entry point's language     *)
+(* must give an error as well (C14)                                                             *)
+ExtApis == {"ext", "ext_dirty", "multi_ext", "multi_ext_dirty"}
+ShouldErrStr(call) ==
+  \E i \in 1..Len(call.fchars) :
+    LET f == ParseChars(call.fchars[i], call.api \in ExtApis) IN
+      \/ ~IsOk(f)
+      \/ ~WellScoped(f, {})
+      \/ ~(Props(f) \subseteq VarNames0)
+      \/ ~(Labels(f) \subseteq DOMAIN call.ctx_sets)
+      \/ Depth(f) > call.k
+JApiStr(case) ==
+  \A ci \in 1..Len(case.calls) :
+    LET call == case.calls[ci] IN
+      /\ call.outcome \in {"ok", "err"}
+      /\ (call.outcome = "err") <=> ShouldErrStr(call)
+
 B2S(b) == IF b THEN "T" ELSE "F"
 Judge(case, kind) ==
   CASE kind = "denote" -> B2S(JDenote(case))
@@ -110,6 +128,7 @@ Judge(case, kind) ==
     [] kind = "unsafe" -> JUnsafe(case)
     [] kind = "slice"  -> B2S(JSlice(case))
     [] kind = "api"    -> B2S(JApi(case))
+    [] kind = "apistr" -> B2S(JApiStr(case))
 
 (* The library's unit set must be the specification's universe; a disagreement is a tool error *)
 (* (the colour encoding or BoolNet.ValidColour is off), never a violation.                     *)
